@@ -13,10 +13,17 @@ struct Job {
     ax: Axis,
     f32: bool,
     ks: Vec<i64>,
+    /// the implementation sees axis and queries multiplied by this power of two (the reference stays
+    /// unscaled: the spline over c*x evaluated at c*q is the spline over x evaluated at q)
+    xscale: f64,
 }
 impl Job {
     fn key(&self) -> String {
-        format!("{}:{}", if self.f32 { "f32" } else { "f64" }, self.ax.name)
+        if self.xscale == 1.0 {
+            format!("{}:{}", if self.f32 { "f32" } else { "f64" }, self.ax.name)
+        } else {
+            format!("{}:{}*2^{}", if self.f32 { "f32" } else { "f64" }, self.ax.name, self.xscale.log2())
+        }
     }
 }
 
@@ -36,6 +43,15 @@ fn ks(quick: bool) -> Vec<i64> {
     for k in [7i64, 64, 999_999, 1_000_000] {
         v.push(k);
         v.push(-k);
+    }
+    // so far away that neighbouring floats are many periods apart (the reference wraps the float
+    // that is actually passed, exactly)
+    for j in [30, 40, 52, 55] {
+        if quick && j == 40 {
+            continue;
+        }
+        v.push((1i64 << j) + 1);
+        v.push(-(1i64 << j) - 1);
     }
     v.sort();
     v.dedup();
@@ -62,7 +78,12 @@ fn run<T: Fl>(job: &Job, out: &mut JobOut) {
         v.extend(extra);
         Json::obj(v)
     };
-    let ip = match catch(|| build_spline::<T, _>(&xt, data.clone(), &BcSpec::Periodic, true)) {
+    let c = T::from_f64_lossy(job.xscale);
+    let xt_impl: Vec<T> = xt.iter().map(|&v| v * c).collect();
+    if xt_impl.windows(2).any(|w| !(w[0] < w[1])) || xt_impl.iter().any(|v| !v.is_finite()) {
+        return;
+    }
+    let ip = match catch(|| build_spline::<T, _>(&xt_impl, data.clone(), &BcSpec::Periodic, true)) {
         Ok(Ok(i)) => i,
         other => {
             out.violate(format!("{key}:build"), format!("periodic build failed: {:?}", other.map(|r| r.map(|_| ()))), case(vec![]));
@@ -117,11 +138,26 @@ fn run<T: Fl>(job: &Job, out: &mut JobOut) {
             (w, w.to_f64())
         })
         .collect();
+    // the exact rounding error of the first step every formulation has to take, fl(q - x0)
+    let first_rounding: Vec<f64> = qs
+        .iter()
+        .map(|&q| {
+            let d = q - xt[0];
+            match (Rat::try_from_f64(Fl::to_f64(d)), Rat::try_from_f64(Fl::to_f64(q))) {
+                (Some(dr), Some(qr)) => (dr - (qr - x0)).to_f64().abs(),
+                _ => 0.0,
+            }
+        })
+        .collect();
+    let qs_impl: Vec<T> = qs.iter().map(|&q| q * c).collect();
+    if qs_impl.iter().any(|v| !v.is_finite()) {
+        return;
+    }
     for (call, shape2d) in [("interp_array/static", false), ("interp_array/dyn", true), ("interp", false)] {
         let sh: Vec<usize> = if shape2d && qs.len() % 2 == 0 { vec![qs.len() / 2, 2] } else { vec![qs.len()] };
         let label = format!("{call}{}", if shape2d { "/2d-shape" } else { "" });
         out.transitions += 1;
-        let res = match call1d(&ip, &qs, &sh, nl, call) {
+        let res = match call1d(&ip, &qs_impl, &sh, nl, call) {
             Ok(r) => r,
             Err(f) => {
                 out.outcome(format!("{label}:{}", f.class()));
@@ -141,8 +177,10 @@ fn run<T: Fl>(job: &Job, out: &mut JobOut) {
                 };
                 let got = Fl::to_f64(res[[qi, j]]);
                 let qf = Fl::to_f64(q);
-                // rounding of the wrapped argument: (q - x0) and (+ x0) each round once
-                let arg_err = 2.0 * T::EPS * (qf.abs() + axis.x[0].abs() + pf);
+                // rounding of the wrapped argument: fl(q - x0) (its error is known exactly; it is 0
+                // when the difference is representable), the remainder is exact, a possible
+                // "+ period" and the final "+ x0" round at the magnitude of the range
+                let arg_err = first_rounding[qi] + 4.0 * T::EPS * (axis.x[0].abs() + pf);
                 let tol = kk * T::EPS * scales[j].max(rv.v.to_f64().abs()) + lips[j] * arg_err;
                 assert!(tol.is_finite(), "tolerance not finite (machinery): scale {} lip {} ref {:?}", scales[j], lips[j], rv.v);
                 let err = err_dd(got, rv.v);
@@ -319,7 +357,14 @@ fn body(ctx: &Ctx) -> (Summary, Meta) {
             if f32 && a.mesh_ratio > 8.0 {
                 continue;
             }
-            jobs.push(Job { ax: a.clone(), f32, ks: kv.clone() });
+            jobs.push(Job { ax: a.clone(), f32, ks: kv.clone(), xscale: 1.0 });
+            // very small and very large units
+            if a.name.starts_with("w[") && a.n() <= if quick { 4 } else { 5 } {
+                // (f32: 3 dy / dx^2 of the 2^20 lanes has to stay below 2^127)
+                for e in if f32 { [-30, 20] } else { [-60, 40] } {
+                    jobs.push(Job { ax: a.clone(), f32, ks: kv.clone(), xscale: 2.0f64.powi(e) });
+                }
+            }
         }
     }
     // non-dyadic axes
@@ -333,7 +378,7 @@ fn body(ctx: &Ctx) -> (Summary, Meta) {
         ("dec[1e-3..7e-3]", vec![1e-3, 2.5e-3, 4e-3, 7e-3]),
         ("dec[-1/3..2/3]", vec![-1.0 / 3.0, 0.1, 0.5, 2.0 / 3.0]),
     ] {
-        jobs.push(Job { ax: Axis::new(name.into(), x), f32: false, ks: kv.clone() });
+        jobs.push(Job { ax: Axis::new(name.into(), x), f32: false, ks: kv.clone(), xscale: 1.0 });
     }
     let njobs = jobs.len();
     let jobs_idx: Vec<(usize, &Job)> = jobs.iter().enumerate().collect();
@@ -349,9 +394,9 @@ fn body(ctx: &Ctx) -> (Summary, Meta) {
         out
     });
     let meta = Meta {
-        rule: "every axis word (n>=3, 5 offsets incl. axes that exclude the origin) with periodic-closed lanes, Periodic boundary + extrapolate(true); queries x + kP for every in-range grid query x and every k of the list, plus the 1 and 2 ulp neighbours of every image of the range start; oracle = certified exact periodic spline evaluated at the *exactly* wrapped float query; 3 call forms. Plus 7 axes with non-dyadic knots: images of range ends / knots / interior points and their 1-2 ulp neighbours for every k, compared with the implementation's in-range value at the exactly wrapped argument (Lipschitz allowance), and never rejected. Non-trivial = k != 0.".into(),
+        rule: "every axis word (n>=3, 5 offsets incl. axes that exclude the origin) with periodic-closed lanes, Periodic boundary + extrapolate(true); queries x + kP for every in-range grid query x and every k of the list (|k| up to 2^55 + 1: the float actually passed is wrapped exactly), each job also with axis and queries in units of 2^-60 and 2^40, plus the 1 and 2 ulp neighbours of every image of the range start; oracle = certified exact periodic spline evaluated at the *exactly* wrapped float query; 3 call forms. Plus 7 axes with non-dyadic knots: images of range ends / knots / interior points and their 1-2 ulp neighbours for every k, compared with the implementation's in-range value at the exactly wrapped argument (Lipschitz allowance), and never rejected. Non-trivial = k != 0.".into(),
         bounds: format!("{njobs} (type, axis) jobs, {} values of k in [-10^6, 10^6]: {:?}; tier {}", kv.len(), if quick { kv.clone() } else { vec![] }, ctx.tier.name()),
-        assumptions: vec!["tolerance K eps scale + Lipschitz * 2 eps (|q| + |x0| + P): rounding of the wrapped argument as allowed by the statement".into()],
+        assumptions: vec!["tolerance K eps scale + Lipschitz * (|fl(q - x0) - (q - x0)| + 4 eps (|x0| + P)): the rounding of the wrapped argument allowed by the statement is taken to be the rounding of the difference q - x0 (known exactly per query, zero when representable) plus two roundings at the magnitude of the range; non-dyadic axes: 4 eps (|q| + |x0| + P)".into()],
         extra: vec![],
     };
     (sum, meta)
